@@ -67,6 +67,19 @@ fn verdict(cbor: bool, st: &str, v: &DV) -> Option<bool> {
 
 fn run(ctx: &mut Ctx, idx: u64) {
   let mut rng = ctx.rng.clone();
+  // every fifth case sweeps one schema of the hand-written interaction corpus through every
+  // refactoring at its first positions; the others apply one refactoring to a generated schema
+  let trees = crate::corpus::trees_for(false);
+  if idx % 5 == 4 && !trees.is_empty() {
+    let g = trees[(idx / 5) as usize % trees.len()].clone();
+    ctx.count("schemas_from_corpus");
+    for kind in refac::KINDS {
+      for k in 0..4 {
+        check(ctx, &mut rng, &g, kind, k);
+      }
+    }
+    return;
+  }
   let g = gen_schema(&mut rng, Profile::shared());
   if !gs::wellformed(&g) {
     ctx.count("generated_schema_not_wellformed_skipped");
@@ -74,6 +87,12 @@ fn run(ctx: &mut Ctx, idx: u64) {
   }
   let kind = refac::KINDS[(idx as usize) % refac::KINDS.len()];
   let k = rng.usize(1000);
+  check(ctx, &mut rng, &g, kind, k);
+}
+
+fn check(ctx: &mut Ctx, rng: &mut crate::rng::Rng, g: &GS, kind: &'static str, k: usize) {
+  let g = g.clone();
+  let mut rng = rng.clone();
   let g2 = match refac::apply(kind, &g, k) {
     Some(x) if gs::wellformed(&x) && x != g => x,
     _ => {
